@@ -60,7 +60,14 @@ func (e *env) runCLI() (classes []string) {
 		case <-done:
 			finished = true
 		case <-time.After(150 * time.Millisecond):
-			if cpuSeconds(cmd.Process.Pid) >= cpuLimit {
+			cpu := cpuSeconds(cmd.Process.Pid)
+			select {
+			case <-done: // it ended while we looked: whatever /proc showed is not about a running child
+				finished = true
+				continue
+			default:
+			}
+			if cpu >= cpuLimit {
 				stuck = true
 			}
 			if stuck || time.Now().After(wallLimit) {
@@ -111,6 +118,11 @@ func cpuSeconds(pid int) float64 {
 	}
 	f := strings.Fields(string(b[i+1:]))
 	if len(f) < 13 {
+		return 0
+	}
+	// the child may have exited and its pid been reused (pid_max is 32768 here and
+	// the machine churns processes): only a process whose parent is this harness counts
+	if f[1] != fmt.Sprint(os.Getpid()) {
 		return 0
 	}
 	var ut, st float64
